@@ -46,23 +46,26 @@ class Connection:
         return self._process_not_unique(previous)
     else:
       self._gfa = gfa
-      try:
-        self._initialize_references()
-      except:
-        # leave no partial references (and no placeholder lines created for
-        # them) behind, if the line cannot be connected
-        referenced = self._referenced_lines()
-        self._remove_field_backreferences()
-        self._remove_field_references()
-        self._remove_nonfield_backreferences()
-        self._remove_nonfield_references()
-        self._gfa = None
-        for line in referenced:
-          if line.virtual and line.is_connected() and not line.all_references:
-            line.disconnect()
-        raise
+      self._initialize_references_or_rollback()
       self._gfa._register_line(self)
       return None
+
+  def _initialize_references_or_rollback(self):
+    try:
+      self._initialize_references()
+    except:
+      # leave no partial references (and no placeholder lines created for
+      # them) behind, if the line cannot be connected
+      referenced = self._referenced_lines()
+      self._remove_field_backreferences()
+      self._remove_field_references()
+      self._remove_nonfield_backreferences()
+      self._remove_nonfield_references()
+      self._gfa = None
+      for line in referenced:
+        if line.virtual and line.is_connected() and not line.all_references:
+          line.disconnect()
+      raise
 
   @property
   def all_references(self):
